@@ -18,3 +18,95 @@ package cdc
 //@   assert before @cdcjson.MarshalToEnvelopeJSON: [key-is-highest-index] (forall j int :: (0 <= j && j < len(req.Objects)) ==> req.Objects[j].Index <= hiIdx) && (hiIdx == 0 || (exists j int :: 0 <= j && j < len(req.Objects) && req.Objects[j].Index == hiIdx))
 //@   assert @s.fifo.Enqueue: [enqueue-under-that-key] arg0 != nil && arg0.Index == hiIdx
 //@   ghost update @s.fifo.Enqueue: enq = true
+
+// ---- C26: the disk queue's manager goroutine ------------------------------------------------------------
+//@ spec import lib/bbolt
+//
+// run. The in-memory highestKey is "the highest index ever STORED": it moves only after the
+// transaction that stored the item and the new max_key has committed (Update returned nil), to
+// exactly the index of that item; an enqueue at or below it is acknowledged without touching the
+// database; above it, the item goes under the big-endian key of its index together with the new
+// max_key in ONE transaction, and the reply carries the outcome of that transaction.
+//@ func (*Queue) run
+//@   requires [recv] q != nil && q.db != nil
+//@   assigns **
+//@   ghost var putDone bool = false
+//@   ghost var putIdx int = 0
+//@   ghost var maxDone bool = false
+//@   ghost var committed bool = false
+//@   ghost var keyIdx int = -1
+//@   ghost update after @uint64tob#3: keyIdx = arg0
+//@   assert @uint64tob#3: [key-is-the-index] arg0 == req.idx
+//@   assert @tx.Bucket(bucketName).Put: [stored-only-above-highest] req.idx > highestKey
+//@   assert @tx.Bucket(bucketName).Put: [stored-under-its-index] arg0 == key && keyIdx == req.idx
+//@   assert @tx.Bucket(bucketName).Put: [stores-the-item] arg1 == req.item
+//@   ghost update after @tx.Bucket(bucketName).Put: putDone = (result == nil)
+//@   ghost update after @tx.Bucket(bucketName).Put: putIdx = req.idx
+//@   assert @?setHighestKey: [max-key-in-the-same-transaction] putDone && arg0 == tx && arg1 == req.idx && putIdx == req.idx
+//@   ghost update after @?setHighestKey: maxDone = (result == nil)
+//@   ghost update after @q.db.Update#1: committed = (result == nil)
+//@   assert @set:highestKey: [highest-only-after-commit] committed
+//@   assert @set:highestKey: [highest-is-the-stored-index] putDone && maxDone
+//@   assert after @set:highestKey: [highest-is-the-stored-index-value] highestKey == putIdx
+//@   ghost var updErr error = nil
+//@   ghost update after @q.db.Update#1: updErr = result
+//@   assert @send:req.respChan#1: [ignored-enqueue-acknowledged-untouched] req.idx <= highestKey && result.err == nil
+//@   assert @send:req.respChan#2: [reply-carries-the-transaction-outcome] result.err == updErr
+//@   ghost var lastKey int = 0
+//@   ghost update after @btouint64#3: lastKey = result
+//@   assert @append: [collects-only-keys-at-or-below] lastKey <= req.idx
+//@   ghost var curNil bool = false
+//@   ghost update after @c.First#1: curNil = (result0 == nil)
+//@   ghost update after @c.Next: curNil = (result0 == nil)
+//@   loop 2 invariant [cursor] curNil == (k == nil)
+//@   assert @stats.Add#3: [collection-stops-only-past-the-range] curNil || lastKey > req.idx
+//@   assert @b.Delete: [deletes-what-was-collected] arg0 == k
+//@   assert after @q.db.Update#2: [delete-transaction-leaves-the-head-alone] (outCh != nil ==> nextEv != nil) && (nextEv != nil ==> nextEv.Index >= nextFrom)
+//@   assert @send:req.respChan#3: [delete-moved-the-read-position-past-the-range] (result == nil && nextFrom != 0) ==> nextFrom > req.idx
+//@   assert @send:req.respChan#3: [head-still-valid-unless-deleted] (outCh != nil ==> nextEv != nil) && ((nextEv != nil && !(result == nil && deletedHead)) ==> nextEv.Index >= nextFrom)
+//@   assert @send:outCh: [emits-the-loaded-head-in-increasing-order] nextEv != nil && nextEv.Index >= nextFrom
+//@   loop 1 invariant [head] (outCh != nil ==> nextEv != nil) && (nextEv != nil ==> nextEv.Index >= nextFrom)
+//
+// Key encoding: 8 bytes big endian (encoding/binary; the round trip is the library's, trusted).
+//@ func uint64tob
+//@   noheap
+//@   trusted
+//@   ensures [eight-bytes] len(result) == 8 && result != nil
+//@   ensures [big-endian] be64(result) == u
+//@ func btouint64
+//@   pure
+//@   trusted
+//@   ensures [big-endian] result == be64(b)
+//@ func bucketSize
+//@   noheap
+//@   trusted
+//@ func setHighestKey
+//@   noheap
+//@   assert @uint64tob: [persists-the-given-index] arg0 == idx
+//@ func getHighestKey
+//@   noheap
+//
+// The two head helpers: after either, a non-nil outgoing channel means a loaded head at or after
+// the read position; advanceHead moves the read position strictly past the event just emitted.
+//@ func (*Queue) run$loadHead
+//@   requires [head-valid] nextEv != nil ==> nextEv.Index >= nextFrom
+//@   assigns **
+//@   ensures [head] (outCh != nil ==> nextEv != nil) && (nextEv != nil ==> nextEv.Index >= nextFrom)
+//@ func (*Queue) run$advanceHead
+//@   requires [emitted] nextEv != nil
+//@   assigns **
+//@   ensures [moves-past-the-emitted-event] nextFrom == old(nextEv.Index) + 1
+//@   ensures [head] (outCh != nil ==> nextEv != nil) && (nextEv != nil ==> nextEv.Index >= nextFrom)
+//
+// NewQueue: the manager goroutine starts from the max_key that is on disk (read in the same
+// transaction that makes sure it exists), so indexes stored before a restart stay ignored after it.
+//@ func NewQueue
+//@   assigns **
+//@   ghost var persisted int = -1
+//@   ghost var readOK bool = false
+//@   ghost var initOK bool = false
+//@   ghost update after @getHighestKey: persisted = result0
+//@   ghost update after @getHighestKey: readOK = (result1 == nil)
+//@   ghost update after @db.Update: initOK = (result == nil)
+//@   assert @q.run: [manager-starts-from-the-persisted-highest-key] initOK && readOK && arg0 == persisted
+//@   ensures [usable] result1 == nil ==> result0 != nil
